@@ -59,7 +59,9 @@ class C15(Prop):
     assumptions = [
         "'attains the maximum up to rounding': the cut of the returned centre must reach the exact maximum of the "
         "criterion within relative 1e-9 + 2048*eps*max|edge|/|mu1-mu2| (accumulated rounding of the cumulative means)",
-        "arrays whose 257 float edges are not strictly increasing (range below float resolution) are undetermined",
+        "arrays whose 257 float edges are not strictly increasing, or for which np.histogram refuses 256 bins "
+        "('Too many bins for data range', e.g. [1+2eps, 1+eps]: otsu raises ValueError there), have a range below "
+        "float resolution and are undetermined",
     ]
 
     # ------------------------------------------------------------------ generation
@@ -69,6 +71,8 @@ class C15(Prop):
         kind = rng.choice(["two", "uni", "bi", "bi", "multi", "lognormal", "cauchy", "int255", "int256", "poisson",
                            "gapped", "offset", "negative", "uniform", "outlier", "tiny-range"])
         dtype = "float"
+        if kind in ("uni", "uniform", "negative", "int255") and rng.random() < 0.7:
+            n = rng.choice([1000, 1500, 2500] + ([6000] if big else []))  # dense histograms: unique maximiser
         if kind == "two":
             a = rng.choice([0.0, 1.0, -3.5, rng.uniform(-100, 100)])
             b = a + rng.choice([1.0, 0.5, 255.0, 10.0 ** rng.uniform(-3, 6)])
@@ -170,7 +174,11 @@ class C15(Prop):
         if distinct.size < 2:
             return outcome({}, {}, {}, hyp=False, features=[], note="fewer than two distinct finite values")
         lo, hi = float(clean.min()), float(clean.max())
-        hist, edges = np.histogram(clean, bins=BINS)
+        try:
+            hist, edges = np.histogram(clean, bins=BINS)
+        except ValueError:  # "Too many bins for data range": 256 finite-sized float bins do not exist
+            return outcome({}, {}, {}, undetermined=True, features=feats | {"range-below-float-resolution(histogram raises)"},
+                           note="range below float resolution")
         if not np.all(np.diff(edges) > 0):
             return outcome({}, {}, {}, undetermined=True, features=feats | {"edges-not-strictly-increasing"},
                            note="range below float resolution")
@@ -238,17 +246,15 @@ class C15(Prop):
             feats.add("best-cut-last")
         # --- correspondence with the mechanism model
         model_ok = rep["mech_is_spec"] and rep["model_index_is_best"]
-        # cuts separated from the model's cut only by empty bins define the same two classes: the float criterion
-        # is bit-identical there and "first maximum" decides, as in the model; any other cut within rounding of
-        # the maximum makes the choice rounding-dependent
-        mi = rep["index"]
-        same_classes = lambda j: not np.any(hist[min(j, mi) + 1:max(j, mi) + 1])
-        ambiguous = [j for j in near if j != mi and not same_classes(j)]
+        # The property leaves the choice among cuts that attain the maximum (exactly, e.g. across empty bins, or
+        # within rounding) open, so that choice is not tested: with a unique maximiser the returned centre must be
+        # the model's, otherwise any cut within rounding of the maximum is accepted.
+        ambiguous = len(near) > 1
         if not ambiguous:
-            feats.add("argmax-decided(strict comparison)")
+            feats.add("unique-maximiser(strict comparison)")
             model_ok = model_ok and t == model_t
         else:
-            feats.add("argmax-rounding-dependent")
+            feats.add("several-maximisers(choice not tested)")
             model_ok = model_ok and (ki in near)
         # --- binning model on the raw data (skipped when a value is within 1e-9 bin widths of an edge)
         if clean.size <= 6000:
